@@ -12,6 +12,11 @@ type Clock struct {
 }
 
 func (c *Clock) NowNano() int64 {
+	if verifOn {
+		if n, ok := verifNowNano(); ok {
+			return n
+		}
+	}
 	return time.Since(c.Start).Nanoseconds()
 }
 
